@@ -32,7 +32,8 @@ def deliver_case(draw, broker):
     msgs = []
     for i in range(n):
         cls, us = draw(DELTA)
-        forms = ["net", "net", "until", "job", "netby"] + (["by"] if cls != "past" else []) + (["jobby"] if cls in ("seconds", "far") else [])
+        forms = ["net", "net", "until", "job", "netby"] + (["by"] if cls != "past" else []) + (["jobby"] if cls in ("seconds", "far") else []) + (
+            ["requeue", "requeue"] if cls in ("subsecond", "seconds") else [])
         msgs.append({"id": f"d{i}", "cls": cls, "delta_us": us, "form": draw(st.sampled_from(forms)),
                      "at": draw(st.one_of(st.just(0.0), st.integers(0, 5_000_000).map(lambda u: u / 1e6))),
                      "prio": draw(st.sampled_from([0, 5, 5, 9]))})
@@ -69,6 +70,13 @@ async def _enqueue(env, conn, m, loop, record):
         return
     d = timedelta(microseconds=m["delta_us"])
     due = now + d
+    if m["form"] == "requeue":
+        # enqueued as an ordinary message; the consumer that receives it puts it back with a retry time `delta` ahead (what a worker
+        # does with a failed attempt) - from then on it is a delayed message due at that time
+        key = RoutingKey(topic="t0", queue="qd", priority=m["prio"], id_=m["id"])
+        record[m["id"]] = {"due": None, "enq": loop.time(), "requeue_delta_us": m["delta_us"]}
+        await b.enqueue(key, "", Parameters())
+        return
     if m["form"] == "job":
         # Job(deferred_until=...) needs no sub-second constraint; a past deferred_until is simply "now"
         job = Job("t0", queue="qd", id_=m["id"], deferred_until=due, priority=PrioritiesT(m["prio"]), _connection=conn)
@@ -145,6 +153,15 @@ async def _deliver(loop, case, out: Outcome):
                     out.v("delivered-twice", f"message {key.id_} delivered again at {loop.time():.6f}")
                 if key.topic != "t0":
                     out.v("foreign-delivered", f"message {key.id_} of topic {key.topic} handed to a consumer of topic t0")
+                r_ = record.get(key.id_) or {}
+                if r_.get("requeue_delta_us") is not None and "requeued_at" not in r_:
+                    from repid.data._parameters import RetriesProperties
+
+                    t_due = vclock.VDateTime.now() + timedelta(microseconds=r_["requeue_delta_us"])
+                    r_["requeued_at"], r_["due"], r_["enq"] = loop.time(), vclock.secs(t_due), loop.time()
+                    await cons_conn.message_broker.requeue(key, "", Parameters(
+                        delay=DelayProperties(next_execution_time=t_due), retries=RetriesProperties(max_amount=3, already_tried=1)))
+                    continue
                 delivered.setdefault(key.id_, loop.time())
                 await cons_conn.message_broker.ack(key)
         finally:
